@@ -886,7 +886,8 @@ def run_fail_case(ctx, rep, case, tcases=None):
                     f'without the mixin in {d[:4]}: {short(before.get(d[0]))} vs {short(plain0.get(d[0]))} '
                     f'(ALIASES={m0})', jc)
         return 'ctor-state'
-    timpl = [] if (tcases is not None and case['teligible']) else None
+    timpl = [] if (tcases is not None and case['teligible'] and kind != 'linker'
+                   and all(op['k'] in MODEL_OPS for op in case['ops'])) else None
     if timpl is not None:
         timpl.append(('', obj_digest(objs[0][0])))
     talts = []
